@@ -24,7 +24,7 @@ LEVEL = 'model_checking'
 TECHNIQUE = ('bounded exhaustive enumeration of (quantified pattern sequence, element sequence, container) on the real matcher with '
              "Python's re as reference model on every case; exhaustive self-match / leaf-mutation / layout / call-order "
              'enumeration over the program set')
-LEVEL_TEXT = ('all pattern sequences up to length 3 over a 33-element quantifier alphabet (incl. static tags and single-node captures inside quantifiers) x all element sequences up to length 5 '
+LEVEL_TEXT = ('all pattern sequences up to length 3 over a 36-element quantifier alphabet (incl. static tags and single-node captures inside quantifiers) x all element sequences up to length 5 '
               'over {a,b,c} in three container kinds are matched by the real code and compared (accept/reject and captured '
               'spans) with re.fullmatch; every node of 45 programs x derived patterns for the structural laws')
 LEVEL_NOTE = ('trusted: Python re as the definition of quantifier semantics (sub-sequence quantifiers with inner quantifiers are '
@@ -33,7 +33,7 @@ RULE = ('enum: case = (container, pattern sequence, element string) or (program,
         'cases where the regex accepts (captures compared) or a structural law was exercised on a node with children; '
         'traces = matches compared with the reference')
 ASSUMPTIONS = ['patterns without source-text sub-patterns for the layout law']
-BOUNDS = {'quick': 'pattern sequences <= 3 over 33 alphabet entries (<=2 quantifiers with captures), strings <= 4 over {a,b,c} in '
+BOUNDS = {'quick': 'pattern sequences <= 3 over 36 alphabet entries (<=2 quantifiers with captures), strings <= 4 over {a,b,c} in '
                    'List.elts; length-2 sequences in body and Tuple; structural laws on 45 programs',
           'thorough': 'strings <= 6, sequences <= 3 in all containers, sequences of 4 over the 10-entry core alphabet'}
 
@@ -81,6 +81,10 @@ def alphabet(M):
     add("MQOPT(M(v='b'))", lambda: M.MQOPT(M.M(v='b')), '(?:(?P<v>b))?', ('node', 'v'))
     add("MQSTAR(M(w=...))", lambda: M.MQSTAR(M.M(w=...)), '(?:(?P<w>.))*', ('node', 'w'))
     add("MQSTAR([M('a',sq=1),M(x=...)])", lambda: M.MQSTAR([M.M('a', sq=1), M.M(x=...)]), '(?:a(?P<x>.))*', ('node', 'x'))
+    # static tags carried by the quantifier itself (anonymous quantifier): they take part in the give-back bookkeeping
+    add("MQSTAR(M(y=...),qs=1)", lambda: M.MQSTAR(M.M(y=...), qs=1), '(?:(?P<y>.))*', ('node', 'y'))
+    add("MQPLUS.NG(M(z='a'),qn=True)", lambda: M.MQPLUS.NG(M.M(z='a'), qn=True), '(?:(?P<z>a))+?', ('node', 'z'))
+    add("MQ(M(m=...),0,2,qm=1)", lambda: M.MQ(M.M(m=...), 0, 2, qm=1), '(?:(?P<m>.)){0,2}', ('node', 'm'))
     return A
 
 
